@@ -122,9 +122,13 @@ def simulate(ctx, module, cfg, num, depth, seed):
         print(out[-3000:])
         raise MachineryError('simulation of %s/%s failed' % (module, cfg))
     behs = []
+    seen = set()
     for line in out.splitlines():
         if line.startswith('<<"BEHAVIOUR", "'):
             s = line[len('<<"BEHAVIOUR", '):-2]
+            if s in seen:
+                continue
+            seen.add(s)
             behs.append(json.loads(json.loads(s)))
     m = re.search(r'The number of states generated: (\d+)', out)
     n = int(m.group(1)) if m else 0
